@@ -1,4 +1,5 @@
 import Pyxv.Proofs.SettingsLemmas
+import Pyxv.Model.SettingsRows
 /-!
 # C11 — settings reach the form header verbatim
 -/
@@ -843,6 +844,106 @@ theorem model_header {hdr : List Str} {row : List (Str × Str)} {a : Args} {h : 
   · rename_i st hst
     exact ⟨st, hst, dealias_nodup hst, fun L hL => settings_header (dealias_nodup hst) hm L hL⟩
   · cases hm
+
+/-! ## settings rows on the survey sheet -/
+
+theorem header2_nil (st : Dict) (a : Args) : header2 st [] a = header st a := rfl
+
+/-- a slot that no settings row of the survey sheet targets keeps the value of the settings sheet -/
+theorem jsonRoot2_other {st : Dict} (a : Args) (ss : List (Str × Option Str)) {k : Str}
+    (hk : agetLast k (surveyAssigns ss) = none) : aget k (jsonRoot2 st a ss) = aget k (jsonRoot st a) := by
+  rw [jsonRoot2, aget_aupdate, hk]
+
+/-- the settings aliases target only `title`, `id_string` and `prefix` (current alias table) -/
+theorem survey_row_targets :
+    (Pyxv.Gen.aliasSettingsHeader.all fun p => ["title", "id_string", "prefix"].contains p.2) = true := by decide
+
+section Rows
+variable {st : Dict} (hn : (keys st).Nodup) (a : Args) (ss : List (Str × Option Str))
+include hn
+
+/-- **survey_rows_title**: with settings rows on the survey sheet the title is the name cell of the
+    last title row; without one it is what the settings sheet gives (default: the settings sheet's id,
+    not a survey-sheet id). -/
+theorem survey_rows_title :
+    (surveyOf (jsonRoot2 st a ss)).title = Spec.title (Spec.overlay (sig st) a (surveyAssigns ss)) a := by
+  show slotStr (jsonRoot2 st a ss) "title" = _
+  rw [slotStr_eq, jsonRoot2, aget_aupdate]
+  unfold Spec.title Spec.overlay
+  cases h : agetLast (S "title") (surveyAssigns ss) with
+  | some x => simp [h]
+  | none =>
+    have := sv_title hn a
+    have h2 : slotStr (jsonRoot st a) "title" = Spec.title (sig st) a := this
+    rw [slotStr_eq] at h2
+    simp only [h]
+    rw [h2]
+    unfold Spec.title
+    cases h3 : sig st (S "title") with
+    | some x => simp [h3]
+    | none => simp [h3, Spec.txt]
+
+/-- **survey_rows_id**: likewise for the id (`form_id` / `set_form_id` rows) -/
+theorem survey_rows_id :
+    (surveyOf (jsonRoot2 st a ss)).idString = Spec.idString (Spec.overlay (sig st) a (surveyAssigns ss)) a := by
+  show slotStr (jsonRoot2 st a ss) "id_string" = _
+  rw [slotStr_eq, jsonRoot2, aget_aupdate]
+  unfold Spec.idString Spec.overlay
+  cases h : agetLast (S "id_string") (surveyAssigns ss) with
+  | some x => simp [h]
+  | none =>
+    have h2 : slotStr (jsonRoot st a) "id_string" = Spec.idString (sig st) a := sv_idString hn a
+    rw [slotStr_eq] at h2
+    have hne : ¬ (S "id_string" = S "title") := by decide
+    simp only [h, hne, if_false]
+    rw [h2]
+    rfl
+
+/-- **survey_rows_prefix**: likewise for `odk:prefix` (`prefix` rows) -/
+theorem survey_rows_prefix :
+    (surveyOf (jsonRoot2 st a ss)).pfx = Spec.opt (Spec.overlay (sig st) a (surveyAssigns ss) (S "prefix")) := by
+  show slotOpt (jsonRoot2 st a ss) "prefix" = _
+  rw [slotOpt_eq, jsonRoot2, aget_aupdate]
+  unfold Spec.overlay
+  cases h : agetLast (S "prefix") (surveyAssigns ss) with
+  | some x => simp [h]
+  | none =>
+    have hne : ¬ (S "prefix" = S "title") := by decide
+    simp only [h, hne, if_false]
+    rw [aget_jsonRoot_plain hn a dn]
+
+end Rows
+
+/-- non-vacuity: a `form_id` row on the survey sheet changes the id but not the title default -/
+example :
+    let st : Dict := [(S "version", .s (S "3"))]
+    let ss : List (Str × Option Str) := [(S "form_id", some (S "SID")), (S "text", some (S "q")), (S "form_title", none)]
+    ∃ h, header2 st ss { fallback := some (S "file") } = .ok h ∧ h.read (.rootAttr (S "id")) = some (S "SID") ∧
+      h.read .title = some (S "None") ∧
+      (∃ h', header2 st [(S "form_id", some (S "SID"))] { fallback := some (S "file") } = .ok h' ∧
+        h'.read .title = some (S "file")) := by
+  refine ⟨_, rfl, by decide +kernel, by decide +kernel, _, rfl, by decide +kernel⟩
+
+/-! ## the `default_language` argument -/
+
+theorem defaultLanguageValue_eq : Pyxv.Gen.defaultLanguageValue.toList = S "default" := by decide
+
+/-- **default_language_slot**: the Survey's default language is the settings sheet's
+    `default_language`, else the `default_language` argument, else `default` — and depends on nothing
+    else (no other setting, not `form_name`, not the file name). -/
+theorem default_language_slot {st : Dict} (hn : (keys st).Nodup) (a : Args) :
+    defaultLanguageOf st a = Spec.defaultLanguage (sig st) a := by
+  unfold defaultLanguageOf
+  have hd : aget (S "default_language") (defaults st a)
+      = some ((aget (S "default_language") st).getD (.s (a.defaultLanguage.getD Pyxv.Gen.defaultLanguageValue.toList))) := by
+    simp only [defaults]
+    rw [aget_cons_ne (by decide), aget_cons_ne (by decide), aget_cons_ne (by decide), aget_cons_ne (by decide),
+      aget_cons_ne (by decide), aget_cons_eq]
+  rw [slotStr_eq, aget_jsonRoot hn, hd, defaultLanguageValue_eq]
+  unfold Spec.defaultLanguage
+  cases h2 : aget (S "default_language") st with
+  | some y => simp [sig, h2]
+  | none => simp [sig, h2, Spec.txt]
 
 /-! ## facts about the tables regenerated from the source (re-checked on every run) -/
 
